@@ -77,12 +77,16 @@ def make_known_attributor(known, site):
             if o.get('status') != 'violated' or '_negcond' not in o:
                 continue
             for e in ents:
+                if e.get('ob') not in (None, o['name']):
+                    continue
+                if e.get('exc_regex') is not None:
+                    import re
+                    if not re.search(e['exc_regex'], str(o.get('exc', ''))):
+                        continue
                 w = e.get('witness', {}).get('inputs')
                 if w is None:
                     o['known'] = e['id']
                     break
-                if e.get('ob') not in (None, o['name']):
-                    continue
                 if eng.witness_on_path(o, w):
                     o['known'] = e['id']
                     break
